@@ -4,6 +4,20 @@ NOTES = ("Every check re-checks the Coq theorems of coq/Props/<id>.v (full .vo b
          "See DESIGN.md for the trusted base and known_findings.json for recorded defects.")
 NOT_APPLICABLE = {}
 CLAIMED = {
+ "C04": {
+  "text": "Partial. Proved on a transcription of the lexer grammar's text modes plus the listener's token joining: "
+          "every character of a literal text written with the printer's escapes - at the first position or later - is "
+          "read back exactly, trailing hashtags come back in order without '#' and never in the text, a trailing comment "
+          "disappears, optional escapes are equivalent (known finding D21 proved as a refutation). Proved on the runner "
+          "model: option groups keep every option in order with its tags, Disabled is false without a condition and the "
+          "negated boolean otherwise, interpolated values are concatenated in order in their display forms. The "
+          "generated lexer itself and strconv's number formatting are modelled and compared on every run.",
+  "design_ref": "DESIGN.md section 5, C04",
+  "note": "The theorem on first characters excludes texts starting with '-' or '=' (only '->' and '===' start another "
+          "statement; the correspondence covers them). Inline expressions and conditions inside a line are not in the "
+          "transcription (they are exercised through the runner families).",
+  "technique": "Coq proofs on a grammar transcription and the runner model + differential correspondence checks",
+ },
  "C18": {
   "text": "Partial. Data-race freedom cannot be stated about an executable Gallina model: it is observed, not proved - "
           "groups of goroutines create and drive their own runners under the race detector and each trace is compared "
